@@ -48,6 +48,27 @@ def d1(cx: Cx, ob: Ob) -> None:
     for cls in DETECTORS:
         if cls not in dets:
             ob.violate(init.qualname, init.where, f"Converter.__init__ never raises {cls}", detail=f"missing-raise:{cls}")
+    # "rejects exactly the record sets in which a name is claimed twice": the constructor has no other way of
+    # refusing records - a further raise turns collections without a clash (and every derivation that ends in
+    # Converter(records)) into errors the properties do not know
+    for o_, ctx_ in s.outcomes():
+        if o_ is None or o_[0] != "raise" or (len(o_) > 3 and o_[3]):
+            continue
+        t_ = o_[1]
+        cls_ = t_[1][1].rsplit(".", 1)[-1] if op(t_) == "call" and op(t_[1]) in ("cls", "builtin", "ext") else None
+        if cls_ in DETECTORS or cls_ is None:
+            continue
+        gs_ = [("" if g.b else "not ") + show(g.a)[:50] for g in ctx_.guards if g.kind == "guard"]
+        outside = any(g.kind == "guard" and g.b is False and op(g.a) == "call" and g.a[1] == ("builtin", "isinstance") for g in ctx_.guards)
+        if outside:
+            continue  # an argument of an undocumented type
+        ob.violate(
+            init.qualname,
+            where(init, o_[2]),
+            f"Converter.__init__ also raises {cls_} (when {' and '.join(gs_[-2:]) or 'always'}): a record set in which no name is claimed twice is refused - by the constructor, by every loader and by every derivation (remap_*, rewire, chain, get_subconverter, discover) that ends in Converter(records)",
+            witness="records whose CURIE prefix contains the delimiter: remap_curie_prefixes({'a': 'ns:a'}) ends in an undocumented ValueError",
+            detail=f"constructor-rejects-more:{cls_}",
+        )
     if len(dets) < 2:
         return
     # what is stored as self.records
@@ -840,3 +861,17 @@ def x28(cx: Cx, ob: Ob) -> None:
 
     c12_d1.fn(cx, ob) if hasattr(c12_d1, "fn") else c12_d1(cx, ob)
     c11_setalg(cx, ob, want="loss")
+
+
+@obligation("C04-X9", "no function on the loading path that reads a file or URL is memoised (shared with C13-X9): a collection that is loaded again from the same location after the file changed is judged on what the file holds NOW - a clash that was added is reported, one that was repaired is not", floor=5)
+def x9(cx: Cx, ob: Ob) -> None:
+    from .c13 import x9 as loaders_x9
+
+    loaders_x9.fn(cx, ob) if hasattr(loaders_x9, "fn") else loaders_x9(cx, ob)
+
+
+@obligation("C04-X29", "what the loaders are given reaches the strict constructor (shared with C13-D2): _prepare loads a Path / a local str / a remote str and hands every in-memory collection - any Mapping, any iterable of records - on unchanged; a collection refused or altered there is never checked for clashes, or fails with an error that is not the duplicate report", floor=4)
+def x29(cx: Cx, ob: Ob) -> None:
+    from .c13 import d2 as prepare_table
+
+    prepare_table.fn(cx, ob) if hasattr(prepare_table, "fn") else prepare_table(cx, ob)
